@@ -174,6 +174,8 @@ def cli(argv, capture_stdout=False, debug=None):
     from gaftools.cli import CommandLineError
 
     class _Capture(io.StringIO):
+        name = "<stdout>"  # as the real sys.stdout
+
         def close(self):  # gaftools sort closes its writer, which is sys.stdout when no --outgaf is given
             pass
 
